@@ -3,7 +3,8 @@
 use std::collections::{HashMap, HashSet};
 use std::fs;
 use std::path::{Path, PathBuf};
-use std::sync::Arc;
+use std::sync::atomic::{AtomicU64, Ordering};
+use std::sync::{Arc, Mutex};
 use tokio::sync::RwLock;
 
 use tower_lsp::jsonrpc::Result;
@@ -35,6 +36,12 @@ pub struct DocumentState {
 pub struct IncanLanguageServer {
     client: Client,
     documents: Arc<RwLock<HashMap<Url, DocumentState>>>,
+    /// Ticket of the most recent open/change notification received per open document (absent once closed).
+    ///
+    /// Handlers run concurrently and suspend at await points, so an analysis of an older text can finish after a newer
+    /// one (or after the document was closed). Results are only stored/published if their ticket is still the latest.
+    latest: Arc<Mutex<HashMap<Url, u64>>>,
+    next_ticket: AtomicU64,
 }
 
 impl IncanLanguageServer {
@@ -42,11 +49,32 @@ impl IncanLanguageServer {
         Self {
             client,
             documents: Arc::new(RwLock::new(HashMap::new())),
+            latest: Arc::new(Mutex::new(HashMap::new())),
+            next_ticket: AtomicU64::new(1),
         }
+    }
+
+    /// Register a newly received text for `uri` and return its ticket (called before the first await of a handler).
+    fn register_latest(&self, uri: &Url) -> u64 {
+        let ticket = self.next_ticket.fetch_add(1, Ordering::SeqCst);
+        if let Ok(mut latest) = self.latest.lock() {
+            latest.insert(uri.clone(), ticket);
+        }
+        ticket
+    }
+
+    /// Whether `ticket` still belongs to the most recent text received for `uri` (and the document is still open).
+    fn is_latest(&self, uri: &Url, ticket: u64) -> bool {
+        self.latest
+            .lock()
+            .map(|latest| latest.get(uri) == Some(&ticket))
+            .unwrap_or(true)
     }
 
     /// Analyze a document and publish diagnostics
     async fn analyze_document(&self, uri: &Url, source: &str, version: i32) {
+        let ticket = self.register_latest(uri);
+
         let mut diagnostics = Vec::new();
 
         // Step 1: Lex
@@ -105,9 +133,12 @@ impl IncanLanguageServer {
             }
         }
 
-        // Store AST for hover/goto
+        // Store AST for hover/goto - unless a newer text (or a close) for this document arrived while we were analyzing.
         {
             let mut docs = self.documents.write().await;
+            if !self.is_latest(uri, ticket) {
+                return;
+            }
             docs.insert(
                 uri.clone(),
                 DocumentState {
@@ -509,9 +540,19 @@ impl LanguageServer for IncanLanguageServer {
     async fn did_close(&self, params: DidCloseTextDocumentParams) {
         let uri = params.text_document.uri;
 
-        // Remove document from cache
-        let mut docs = self.documents.write().await;
-        docs.remove(&uri);
+        // Forget the latest-text ticket first, so analyses still in flight do not re-insert the document.
+        if let Ok(mut latest) = self.latest.lock() {
+            latest.remove(&uri);
+        }
+
+        // Remove document from cache (unless it was re-opened in the meantime); do not hold the lock while publishing.
+        {
+            let mut docs = self.documents.write().await;
+            let reopened = self.latest.lock().map(|latest| latest.contains_key(&uri)).unwrap_or(false);
+            if !reopened {
+                docs.remove(&uri);
+            }
+        }
 
         // Clear diagnostics
         self.client.publish_diagnostics(uri, vec![], None).await;
